@@ -29,7 +29,7 @@ type HostileFileCase struct {
 }
 
 var hostileFileMuts = []string{"bitflip", "byteset", "truncate", "len-larger", "len-smaller", "len-4gib", "len-indefinite", "deep-nesting", "deep-nesting-definite", "many-nodes", "tag-zero", "long-tag",
-	"inner-len-lie", "duplicate-inner", "empty-inner", "random-tail", "giant-claimed-image", "zero-fill", "repeat-entries", "unwrap-and-repeat", "inner-bad-oid", "facial-fields", "name-extra-component"}
+	"inner-len-lie", "duplicate-inner", "empty-inner", "random-tail", "giant-claimed-image", "zero-fill", "repeat-entries", "unwrap-and-repeat", "inner-bad-oid", "facial-fields", "name-extra-component", "ec-params-truncate"}
 
 var hostileFileTargets = []string{"cardaccess", "sod", "com", "dg1", "dg2", "dg7", "dg11", "dg12", "dg13", "dg14", "dg15", "dg16", "cardsecurity"}
 
@@ -64,6 +64,8 @@ func (HostileFilesEngine) Gen(prop, tier string, seed uint64, yield func(c any) 
 			targets = []string{"dg2"}
 		case "name-extra-component":
 			targets = []string{"dg11", "dg12", "dg16"}
+		case "ec-params-truncate":
+			targets = []string{"dg15", "dg14", "sod", "cardsecurity"}
 		case "repeat-entries", "unwrap-and-repeat":
 			targets = []string{"dg11", "dg12", "dg16", "com", "dg2", "dg7", "cardaccess", "dg14"}
 		}
@@ -80,6 +82,17 @@ func (HostileFilesEngine) Gen(prop, tier string, seed uint64, yield func(c any) 
 		}
 		if f == "dg15" && s.AA == nil {
 			s.AA = &world.AASpec{Kind: "ec", CurveID: 12}
+		}
+		if mut == "ec-params-truncate" {
+			// the file must hold a key with explicit domain parameters
+			switch f {
+			case "dg15":
+				s.AA = &world.AASpec{Kind: "ec", CurveID: core.Pick(rng, chip.AllParamIDs), Explicit: true}
+			case "dg14":
+				s.CA = &world.CASpec{CurveID: core.Pick(rng, chip.AllParamIDs), Explicit: true, Suites: []string{chip.AES128}}
+			default:
+				s.DS, s.DSScheme = world.KeySpec{Kind: "ec", CurveID: core.Pick(rng, chip.AllParamIDs), Explicit: true}, world.SchemeSpec{Kind: "ecdsa", Hash: "SHA256"}
+			}
 		}
 		if !yield(HostileFileCase{Spec: s, File: f, Mut: mut, A: rng.Intn(1 << 20), B: rng.Intn(256)}) {
 			return
@@ -300,6 +313,63 @@ func mutateFile(orig []byte, mut string, a, b int, rng *core.Rng) []byte {
 			return g
 		}
 		return chip.EncTLV(outerTag, rebuild(inner, target))
+	case "ec-params-truncate":
+		// explicit EC domain parameters (X9.62 ECParameters) with their optional / trailing elements cut or emptied:
+		// cofactor dropped, order and cofactor dropped, empty cofactor, oversized cofactor, base point dropped as well
+		primeField := []byte{0x06, 0x07, 0x2A, 0x86, 0x48, 0xCE, 0x3D, 0x01, 0x01}
+		var edit func(raw []byte, depth int) ([]byte, bool)
+		edit = func(raw []byte, depth int) ([]byte, bool) {
+			kids, err := chip.ParseTLVs(raw)
+			if err != nil || depth > 12 {
+				return raw, false
+			}
+			// is this the content of an ECParameters SEQUENCE? (version, fieldID{prime-field OID, p}, curve, base, order[, cofactor])
+			if len(kids) >= 5 && kids[0].Tag == 0x02 && kids[1].Tag == 0x30 && bytes.HasPrefix(kids[1].Val, primeField) {
+				keep := kids
+				switch b % 5 {
+				case 0:
+					keep = kids[:5]
+				case 1:
+					keep = kids[:4]
+				case 2:
+					keep = append(append([]chip.TLV{}, kids[:5]...), chip.TLV{Raw: []byte{0x02, 0x00}})
+				case 3:
+					keep = append(append([]chip.TLV{}, kids[:5]...), chip.TLV{Raw: chip.EncTLV(0x02, bytes.Repeat([]byte{0x7F}, 40))})
+				case 4:
+					keep = kids[:3]
+				}
+				var g []byte
+				for _, k := range keep {
+					g = append(g, k.Raw...)
+				}
+				return g, true
+			}
+			var g []byte
+			done := false
+			for _, k := range kids {
+				first := k.Tag
+				for first > 0xFF {
+					first >>= 8
+				}
+				if !done && (first&0x20 != 0 || k.Tag == 0x04 || k.Tag == 0x03) {
+					val, pre := k.Val, []byte(nil)
+					if k.Tag == 0x03 && len(val) > 0 {
+						pre, val = val[:1], val[1:] // BIT STRING: unused-bits octet
+					}
+					if sub, ok := edit(val, depth+1); ok {
+						g = append(g, chip.EncTLV(k.Tag, append(bytes.Clone(pre), sub...))...)
+						done = true
+						continue
+					}
+				}
+				g = append(g, k.Raw...)
+			}
+			return g, done
+		}
+		if g, ok := edit(inner, 0); ok {
+			return chip.EncTLV(outerTag, g)
+		}
+		return f
 	case "many-nodes":
 		return chip.EncTLV(outerTag, bytes.Repeat([]byte{0x04, 0x00}, 9000+a%6000))
 	case "tag-zero":
